@@ -32,7 +32,15 @@ def run(ctx):
     if kf.exists():
         irall.update(json.loads(kf.read_text())["ir"])
     import translate
-    ev = translate.make_evaluator(irall)
+    _ev = translate.make_evaluator(irall)
+
+    class IRUnavailable(Exception):
+        """the translator produced no definition of that name (a broken obligation of its own): not a behaviour of the implementation"""
+
+    def ev(name, *a, **k):
+        if name not in irall:
+            raise IRUnavailable(name)
+        return _ev(name, *a, **k)
     NS = nsutil.namespaces()
     ctx.rule = ("transform class in {Periodic, Logit, Probit, Affine, Composite with every on/off combination} x bounds lower<upper with widths "
                 "1e-8..1e8 and offsets to 1e8 x interior points down to the clipping margin (and any real for wrapping, including adversarial "
@@ -204,6 +212,8 @@ def run(ctx):
                         gx = np.asarray([float(t) for t in ev(pre + "_inverse_y", **B)])
                         tie_set(pre + "_inverse_y", bool(np.all(np.abs(gx - xbv[i]) / (up - lo) <= 1e-9 + c)), json.dumps(case))
                         tie_set(pre + "_inverse_logj", close(float(ev(pre + "_inverse_logj", **B)), np.asarray(nsutil.to_list(ljb), float).reshape(-1)[i], 1e-9, 1e-8), json.dumps(case))
+        except IRUnavailable as e:
+            tie_set(str(e), False, f"no translated definition {e} to compare with (see the translate:* obligations)")
         except Exception as e:
             ctx.violation(f"raises:{kind}:{nsname}:{width}:{type(e).__name__}", f"{kind} transform raised {e!r}", case)
     # ---------------- composite: every on/off combination
